@@ -71,6 +71,9 @@ def _rule_body(ctx, name):
 
 
 def r1_factor_form(ctx):
+    from . import C03 as _C03b
+    _C03b.r3_exponent_algebra(ctx)   # the unit string is turned into exponents by these operators: `km3/km`, `J/km1:2` (shared with C03.R3)
+    _C03b.r6_fraction(ctx)           # ... and the exponents are these fractions (shared with C03.R6)
     _system_units_agree(ctx)
     x, f1, f2, fu, fv, fw = (Term.sym(s) for s in ("x", "f1", "f2", "fu", "fv", "fw"))
     lin = _rule_body(ctx, "_convert_linear")
